@@ -12,6 +12,15 @@ order is done; the executors in the namespace of typhon.files.fileset are replac
 subclasses).  The recorded trace (submit / finish / yield events) is handed to Coq, which checks that
 the model accepts it, and evaluates the specification; a result that differs from the specification, a
 queue longer than max_workers or a file processed twice is a failing input of the property.
+
+Extension (Model/C10_bundle.v): imap_lazy -- the submitted tasks never exceed the yielded results by more
+than max_workers (checked on every recorded trace by an independent counter as well); bundles are evaluated
+with the explicit bundle model (members with contents, nested collect, function applied to the list of
+contents): the list the real function was called with is compared with the model's, member reads inside a
+bundle are forced into chosen completion orders, readers returning None exercise the None-dropping of
+collect.  Thorough tier: the same laws on process pools (map / imap / pass-through imap = what icollect does,
+on processes / icollect itself, which pins threads) with events and gates shared through a
+multiprocessing.Manager.
 """
 import itertools
 import json
@@ -22,7 +31,7 @@ from lib import core
 from lib.core import zlit, coq_list, coq_bool
 from harness import c10_driver as drv
 
-PREAMBLE = "From Typhon Require Import Model.C10_pool.\n"
+PREAMBLE = "From Typhon Require Import Model.C10_pool Model.C10_bundle.\n"
 TRUSTED = [
     "correspondence harness tools/props/c10.py + tools/harness/c10_driver.py (case generators, gates that force the "
     "completion order, logging executor subclasses, canonicalisation of values to integers)",
@@ -67,15 +76,16 @@ def mode_of(api):
 
 def mk_case(cid, api, nfiles, stream, w, select="all", period=None, on_content=False, pass_info=False,
             return_info=False, e2w=False, rfail=(), fnone=(), fraise=(), pool="thread", extra_args=False,
-            as_generator=False, pass_max_workers=True):
-    if api in ("icollect", "collect"):
+            as_generator=False, pass_max_workers=True, rnone=(), passthrough=False, inner_order=None):
+    if api in ("icollect", "collect") or passthrough:
         on_content, pass_info, fnone, fraise = True, False, (), ()
     return {"id": cid, "api": api, "pool": pool, "on_content": bool(on_content), "pass_info": bool(pass_info),
+            "passthrough": bool(passthrough), "inner_order": inner_order,
             "return_info": bool(return_info), "e2w": bool(e2w), "fnone": sorted(fnone), "fraise": sorted(fraise),
             "extra_args": bool(extra_args), "pass_max_workers": bool(pass_max_workers),
             "sets": {"p": {"labels": [f"{(7 * i + 3) % 97:02d}" for i in range(nfiles)], "stream": [list(b) for b in stream],
                            "w": w, "select": select, "period": period, "rfail": sorted(rfail),
-                           "as_generator": bool(as_generator)}},
+                           "rnone": sorted(rnone), "as_generator": bool(as_generator)}},
             "order": None}
 
 
@@ -101,12 +111,42 @@ def random_stream(rng, nfiles):
     return "bundles", None, stream
 
 
-def random_case(rng, cid, api, nmax, pool="thread"):
+def is_passthrough(case):
+    return case["api"] in ("icollect", "collect", "align") or bool(case.get("passthrough"))
+
+
+def none_and_inner(rng, api, passthrough, on_content, select, stream, rfail, w):
+    """Files whose reader returns None and forced member orders inside bundles.  A bundle without an unreadable
+    member keeps at least one content (the outcome of a bundle with nothing left to hand on is not fixed by the
+    property); single files get a None content only under the pass-through function."""
+    rnone, inner = set(), {}
+    if not on_content:
+        return rnone, None
+    pt = passthrough or api in ("icollect", "collect")
+    if select == "bundles":
+        for k, b in enumerate(stream):
+            failing = any(p in rfail for p in b)
+            if rng.random() < 0.3:
+                cand = [p for p in b if p not in rfail]
+                pick = set(rng.sample(cand, rng.randint(0, len(cand)))) if cand else set()
+                if not failing and pick >= set(b):
+                    pick.discard(rng.choice(sorted(pick)))
+                rnone |= pick
+            if len(b) >= 2 and not failing and rng.random() < 0.6:
+                inner[str(k)] = drv.random_order(rng, "map", len(b), w)
+    elif pt and rng.random() < 0.3:
+        cand = [b[0] for b in stream if b[0] not in rfail]
+        if cand:
+            rnone = set(rng.sample(cand, rng.randint(1, max(1, len(cand) // 2))))
+    return rnone, (inner or None)
+
+
+def random_case(rng, cid, api, nmax, pool="thread", passthrough=False):
     nfiles = rng.randint(1, nmax)
     select, period, stream = random_stream(rng, nfiles)
     n = len(stream)
     w = rng.choice([1, 2, 2, 3, 3, 4, 5, n, n + 2])
-    on_content = rng.random() < 0.6
+    on_content = rng.random() < 0.6 or passthrough or api in ("icollect", "collect")
     fail_style = rng.random()
     rfail, fnone, fraise = set(), set(), set()
     files_in_stream = [p for b in stream for p in b]
@@ -119,9 +159,11 @@ def random_case(rng, cid, api, nmax, pool="thread"):
         fnone = set(rng.sample(range(n), rng.randint(1, n)))
     if rng.random() < 0.25:
         fraise = set(rng.sample(range(n), rng.randint(1, min(2, n))))
+    rnone, inner = none_and_inner(rng, api, passthrough, on_content, select, stream, rfail, w)
     c = mk_case(cid, api, nfiles, stream, w, select, period, on_content, rng.random() < 0.5, rng.random() < 0.5,
-                rng.random() < 0.6, rfail, fnone, fraise, pool=pool, extra_args=rng.random() < 0.2,
-                as_generator=(select == "files" and rng.random() < 0.3), pass_max_workers=True)
+                rng.random() < 0.6, rfail, fnone, fraise, pool=pool, extra_args=rng.random() < 0.2 and not passthrough,
+                as_generator=(select == "files" and rng.random() < 0.3), pass_max_workers=True,
+                rnone=rnone, passthrough=passthrough, inner_order=inner)
     c["order"] = drv.random_order(rng, mode_of(api), forced_count(c), w)
     return c
 
@@ -142,7 +184,33 @@ def exhaustive_cases(rng, start_id, nmax, wmax, apis):
     return cases
 
 
-def failing_subset_cases(rng, start_id, n, apis):
+def bundle_pattern_cases(rng, start_id, sizes, apis, pool="thread"):
+    """A stream of two bundles; every member of the first one is readable / returns None / cannot be read (all
+    patterns), error_to_warning on and off; when no member fails, every completion order of the member reads
+    inside the bundle is forced.  `apis` is cycled through when it is a tuple of one-element choices."""
+    cases, cid = [], start_id
+    for m in sizes:
+        stream = [list(range(m)), [m, m + 1]]
+        for pat in itertools.product("onf", repeat=m):
+            if "f" not in pat and "o" not in pat:
+                continue            # nothing left to hand on: not fixed by the property
+            rfail = {i for i, c in enumerate(pat) if c == "f"}
+            rnone = {i for i, c in enumerate(pat) if c == "n"}
+            inner = [None] if rfail else drv.feasible_orders("map", m, m)
+            for e2w in (True, False):
+                for order in inner:
+                    for api in (apis if isinstance(apis, list) else [apis[cid % len(apis)]]):
+                        w = m                      # the nested collect runs on max_threads = w workers
+                        c = mk_case(cid, api, m + 2, stream, w, "bundles", on_content=True, e2w=e2w, rfail=rfail,
+                                    rnone=rnone, pass_info=(cid % 3 == 0), return_info=(cid % 2 == 0), pool=pool,
+                                    inner_order=({"0": order} if order else None))
+                        c["order"] = drv.random_order(rng, mode_of(api), forced_count(c), w)
+                        cases.append(c)
+                        cid += 1
+    return cases
+
+
+def failing_subset_cases(rng, start_id, n, apis, pool="thread"):
     """Readers failing on every subset of n files, error_to_warning on and off, one random forced order each."""
     cases, cid = [], start_id
     for api in apis:
@@ -152,7 +220,7 @@ def failing_subset_cases(rng, start_id, n, apis):
                     w = rng.choice([1, 2, 3])
                     c = mk_case(cid, api, n, [[i] for i in range(n)], w, on_content=True, e2w=e2w, rfail=sub,
                                 return_info=rng.random() < 0.5, pass_info=rng.random() < 0.5,
-                                fnone=set(rng.sample(range(n), rng.randint(0, 1))))
+                                fnone=set(rng.sample(range(n), rng.randint(0, 1))), pool=pool)
                     c["order"] = drv.random_order(rng, mode_of(api), forced_count(c), w)
                     cases.append(c)
                     cid += 1
@@ -215,20 +283,52 @@ def align_case(rng, cid, nmax):
 
 # ----------------------------------------------------------------------------- Coq expressions
 
-def tasks_expr(case, name="p"):
+def is_bundled(case, name="p"):
+    return case["sets"][name].get("select") == "bundles"
+
+
+def task_items(case, name="p"):
+    """(reads / members, want, f, fv) per task of the stream."""
     sp = case["sets"][name]
-    passthrough = case["api"] in ("icollect", "collect", "align")
+    passthrough = is_passthrough(case)
+    rnone = set(sp.get("rnone", []))
     items = []
     for k, bundle in enumerate(sp["stream"]):
-        reads = coq_list([zlit(2000 + pos if pos in sp["rfail"] else -1) for pos in bundle])
         if not passthrough and k in case["fraise"]:
             f, fv = 2, 3000 + k
         elif not passthrough and k in case["fnone"]:
             f, fv = 1, 0
+        elif passthrough and not is_bundled(case, name) and bundle[0] in rnone:
+            f, fv = 1, 0        # the pass-through function hands the None content on
         else:
             f, fv = 0, 1000 + k
+        items.append((bundle, f, fv))
+    return items
+
+
+def tasks_expr(case, name="p"):
+    sp = case["sets"][name]
+    rnone = set(sp.get("rnone", []))
+    oc, ew = coq_bool(case['on_content']), coq_bool(case['e2w'])
+    if is_bundled(case, name):
+        return f"(bresults {oc} {ew} {btasks_expr(case, name)})"
+    items = []
+    for bundle, f, fv in task_items(case, name):
+        reads = coq_list([zlit(2000 + pos if pos in sp["rfail"] else -1) for pos in bundle])
         items.append(f"mk_task {reads} {f} {fv}")
-    return f"(results {coq_bool(case['on_content'])} {coq_bool(case['e2w'])} {coq_list(items)})"
+    return f"(results {oc} {ew} {coq_list(items)})"
+
+
+def btasks_expr(case, name="p"):
+    """The stream of a bundled case in the explicit bundle model (Model/C10_bundle.v)."""
+    sp = case["sets"][name]
+    rnone = set(sp.get("rnone", []))
+    items = []
+    for bundle, f, fv in task_items(case, name):
+        members = coq_list([zlit(2000 + pos if pos in sp["rfail"] else (-1 if pos in rnone else pos)) for pos in bundle])
+        want = coq_list([zlit(pos) for pos in bundle if pos not in rnone])
+        items.append(f"mk_btask {members} {want} {f} {fv}")
+    return coq_list(items)
 
 
 def task_of_code(case, code, name="p"):
@@ -246,7 +346,7 @@ def task_of_code(case, code, name="p"):
 def trace_of(case, obs, name="p"):
     tr = []
     for kind, nm, k in obs["events"]:
-        if nm != name or k is None:
+        if nm != name or k is None or kind not in ("submit", "finish", "yield"):
             continue
         tr.append({"submit": "zS", "finish": "zC", "yield": "zY"}[kind] + f" {zlit(k)}")
     k = task_of_code(case, obs.get("err"), name)
@@ -261,7 +361,11 @@ def maplike_expr(case, obs):
     rs = tasks_expr(case)
     tr = coq_list(trace_of(case, obs))
     prio = coq_list([zlit(k) for k in case["order"]])
-    return f"(check_trace {w} {rs} {tr}, sched_z {w} {rs} {prio}, cres_z (collect_model {rs}))"
+    if is_bundled(case):
+        bc = f"bundle_check {coq_bool(case['on_content'])} {coq_bool(case['e2w'])} {btasks_expr(case)}"
+    else:
+        bc = "(@nil (option (list Z)), true)"
+    return f"(check_trace {w} {rs} {tr}, sched_z {w} {rs} {prio}, cres_z (collect_model {rs}), {bc})"
 
 
 def align_expr(case):
@@ -274,8 +378,9 @@ def describe(case):
     sp = case["sets"]["p"]
     return (f"{case['api']}({case.get('pool','thread')}, max_workers={sp['w']}, select={sp.get('select')}, stream={sp['stream']}, "
             f"on_content={case['on_content']}, return_info={case['return_info']}, error_to_warning={case['e2w']}, "
-            f"unreadable={sp['rfail']}, func None for {case['fnone']}, func raises for {case['fraise']}, "
-            f"forced completion order {case.get('order')})")
+            f"unreadable={sp['rfail']}, reader returns None for {sp.get('rnone', [])}, func None for {case['fnone']}, "
+            f"func raises for {case['fraise']}, pass-through function={bool(case.get('passthrough'))}, "
+            f"forced completion order {case.get('order')}, member orders inside bundles {case.get('inner_order')})")
 
 
 def judge_maplike(ctx, case, obs, val):
@@ -293,7 +398,7 @@ def judge_maplike(ctx, case, obs, val):
         ctx.fail("correspondence", "Coq evaluation of the model failed", case=case, signature="coq-eval")
         return False
     # Coq prints left-nested pairs flat
-    acc, final, mvals, merr, svals, serr, sched, (ccode, clist) = val
+    acc, final, mvals, merr, svals, serr, sched, (ccode, clist), (margs, refines) = val
     n_acc, n_tr, inflight = acc
     opt = lambda v: None if v is None else v[1]        # noqa: E731
     svals, mvals = [opt(v) for v in svals], [opt(v) for v in mvals]
@@ -312,7 +417,8 @@ def judge_maplike(ctx, case, obs, val):
             fail("failing-input", f"{api} handed the caller values {obs['out']} / exception {obs['err']}; the property "
                  f"requires {svals} / {serr}", f"{api}-result", impl=[obs["out"], obs["err"]], model=[svals, serr])
         if inflight > w:
-            fail("failing-input", f"{api} held {inflight} submitted-but-unconsumed tasks with max_workers={w}",
+            fail("failing-input", f"{api} held {inflight} submitted-but-unconsumed tasks with max_workers={w} (it ran ahead of "
+                 f"its consumer: submitted > yielded + max_workers, imap_lazy / imap_bounded)",
                  f"{api}-bound", impl=obs["events"])
     elif api == "map":
         want = (svals, None) if serr is None else ([], serr)
@@ -331,6 +437,35 @@ def judge_maplike(ctx, case, obs, val):
     if not obs.get("yield_info_ok", True):
         fail("failing-input", f"{api}: a result was paired with the FileInfo of another file", f"{api}-info-pairing",
              impl=obs["out"])
+    # --- bundles: the function is applied to the list of member contents in member order (bundle_task_result)
+    if is_bundled(case) and case["on_content"]:
+        if not refines:
+            ctx.fail("proof", "the bundle model and its abstraction to the pool model differ (bundle_refines_task)", case=case,
+                     signature="model-vs-spec")
+        oargs = obs.get("args", {})
+        for k, m in enumerate(margs):
+            got = oargs.get(f"p:{k}")
+            if m is None:
+                # a member cannot be read: the function must not be called for this bundle
+                if got is not None:
+                    fail("failing-input", f"{api}: the function of bundle {k} was called with the contents {got} although a "
+                         f"member cannot be read", f"{api}-bundle-args", impl=got)
+                continue
+            want_args = m[1]
+            if got is not None and got != want_args:
+                fail("failing-input", f"{api}: the function of bundle {k} was called with the contents of the files {got}; the "
+                     f"property requires the members' contents in member order {want_args}", f"{api}-bundle-args",
+                     impl=got, model=want_args)
+            elif got is None and obs["err"] is None and api in ("map", "imap") and not case.get("passthrough"):
+                fail("failing-input", f"{api}: the function was never called for bundle {k} (contents {want_args})",
+                     f"{api}-bundle-args", impl=oargs, model=want_args)
+        # the forced completion order of the member reads inside a bundle was followed
+        for ks, order in (case.get("inner_order") or {}).items():
+            b = sp["stream"][int(ks)]
+            seen = [k2 for kind, nm, k2 in obs["events"] if kind == "mread" and k2 in b]
+            if len(seen) == len(b) and seen != [b[i] for i in order] and not bad and not obs["stuck"]:
+                fail("correspondence", f"{api}: the members of bundle {ks} were read in order {seen}, forced {[b[i] for i in order]}",
+                     f"{api}-inner-order-not-forced", impl=seen)
     # --- exactly once
     delivered = len(obs["out"]) if api in ("imap", "icollect") else (n if obs["err"] is None else 0)
     over = {k: v for k, v in obs["func_calls"].items() if v > 1}
@@ -449,26 +584,38 @@ def run_thread_cases(ctx, cases, root):
     return obs
 
 
-def run_process_cases(ctx, cases):
+def run_child_cases(ctx, cases, args=(), shards=8):
+    """Run the cases in `shards` child interpreters of tools/harness/c10_driver.py (round-robin); the observations come
+    back in the order of `cases`."""
     if not cases:
         return []
-    chunks = [cases[i::8] for i in range(8)]
+    chunks = [cases[i::shards] for i in range(shards)]
     chunks = [c for c in chunks if c]
     from concurrent.futures import ThreadPoolExecutor
 
     def one(chunk):
-        r = core.run_py(core.VERIF / "tools" / "harness" / "c10_driver.py", [], timeout=800, stdin=json.dumps(chunk))
+        r = core.run_py(core.VERIF / "tools" / "harness" / "c10_driver.py", list(args), timeout=800, stdin=json.dumps(chunk))
         for line in r.stdout.splitlines():
             if line.startswith("C10RESULT "):
                 return json.loads(line[len("C10RESULT "):])
         return [{"crash": (r.stdout + r.stderr)[-1500:]}] * len(chunk)
-    with ThreadPoolExecutor(max_workers=8) as ex:
+    with ThreadPoolExecutor(max_workers=shards) as ex:
         res = list(ex.map(one, chunks))
     out = [None] * len(cases)
     for i, chunk_res in enumerate(res):
         for j, o in enumerate(chunk_res):
-            out[i + 8 * j] = o
+            out[i + shards * j] = o
     return out
+
+
+def run_process_cases(ctx, cases):
+    return run_child_cases(ctx, cases)
+
+
+def run_thread_cases_parallel(ctx, cases):
+    """The thread-pool cases, sharded over child interpreters (each case still runs alone in its interpreter, with the
+    in-process recorder); the children strip the case dicts they receive, the parent's copies stay as generated."""
+    return run_child_cases(ctx, cases, args=("--thread",))
 
 
 def evaluate(ctx, cases, obs, tag):
@@ -518,16 +665,29 @@ def run(ctx):
     n_exh = len(cases)
     cases += failing_subset_cases(rng, len(cases), ctx.n(3, 4), ["imap", "map", "icollect", "collect"])
     n_sub = len(cases) - n_exh
+    bun = bundle_pattern_cases(rng, len(cases), [2, 3], ["imap", "map", "icollect"] if ctx.thorough
+                               else ("imap", "map", "icollect", "imap", "collect"))
+    if not ctx.thorough:
+        # each nested collect() runs gc.collect(): keep the quick tier to all two-member patterns and every second
+        # three-member one
+        bun = [c for i, c in enumerate(bun) if len(c["sets"]["p"]["stream"][0]) == 2 or i % 2 == 0]
+        for i, c in enumerate(bun):
+            c["id"] = len(cases) + i
+    cases += bun
+    n_bun = len(cases) - n_exh - n_sub
     for api, k in (("imap", ctx.n(60, 500)), ("map", ctx.n(30, 250)), ("icollect", ctx.n(30, 250)),
                    ("collect", ctx.n(30, 250))):
         for _ in range(k):
             cases.append(random_case(rng, len(cases), api, ctx.n(10, 14)))
-    n_rand = len(cases) - n_exh - n_sub
+    n_rand = len(cases) - n_exh - n_sub - n_bun
     align_cases = [align_case(rng, len(cases) + i, ctx.n(6, 8)) for i in range(ctx.n(80, 600))]
     proc_cases = []
     if ctx.thorough:
         pid = len(cases) + len(align_cases)
-        for api in ("imap", "map"):
+        # process pools: the same laws with the events and gates in a multiprocessing.Manager.  icollect() pins
+        # worker_type="thread" in the code, so next to icollect itself the pass-through function is run through
+        # imap(worker_type="process") -- what icollect does, on processes.
+        for api in ("imap", "map", "icollect"):
             for n in range(1, 5):
                 for w in range(1, 4):
                     if w > n + 1:
@@ -537,20 +697,29 @@ def run(ctx):
                         c["order"] = order
                         proc_cases.append(c)
                         pid += 1
-        for api in ("imap", "map"):
-            for _ in range(60):
-                proc_cases.append(random_case(rng, pid, api, 7, pool="process"))
+        for w in (2, 3):
+            for order in drv.feasible_orders("imap", 4, w):
+                c = mk_case(pid, "imap", 4, [[i] for i in range(4)], w, pool="process", passthrough=True,
+                            return_info=(pid % 2 == 0))
+                c["order"] = order
+                proc_cases.append(c)
                 pid += 1
-    ctx.log(f"cases: {n_exh} exhaustive-order, {n_sub} failing-subset, {n_rand} sampled, {len(align_cases)} align, "
+        sub = failing_subset_cases(rng, pid, 3, ["imap", "map", "icollect"], pool="process")
+        proc_cases += sub
+        pid += len(sub)
+        bun = bundle_pattern_cases(rng, pid, [2, 3], ("imap", "map", "imap"), pool="process")
+        proc_cases += bun
+        pid += len(bun)
+        for api, pt in (("imap", False), ("map", False), ("icollect", False), ("imap", True)):
+            for _ in range(60):
+                proc_cases.append(random_case(rng, pid, api, 7, pool="process", passthrough=pt))
+                pid += 1
+    ctx.log(f"cases: {n_exh} exhaustive-order, {n_sub} failing-subset, {n_bun} bundle-pattern, {n_rand} sampled, {len(align_cases)} align, "
             f"{len(proc_cases)} process-pool")
-    root = tempfile.mkdtemp(prefix="verif_c10_")
-    try:
-        obs = run_thread_cases(ctx, cases, root)
-        ctx.log(f"ran {len(cases)} thread-pool cases")
-        aobs = run_thread_cases(ctx, align_cases, root)
-        ctx.log(f"ran {len(align_cases)} align cases")
-    finally:
-        shutil.rmtree(root, ignore_errors=True)
+    obs = run_thread_cases_parallel(ctx, cases)
+    ctx.log(f"ran {len(cases)} thread-pool cases")
+    aobs = run_thread_cases_parallel(ctx, align_cases)
+    ctx.log(f"ran {len(align_cases)} align cases")
     pobs = run_process_cases(ctx, proc_cases)
     if proc_cases:
         ctx.log(f"ran {len(proc_cases)} process-pool cases")
@@ -565,7 +734,15 @@ def run(ctx):
     allc = cases + proc_cases
     ctx.cov["input_distribution"] = {
         "exhaustive_order_cases": n_exh, "failing_subset_cases": n_sub, "sampled_cases": n_rand,
-        "align_cases": len(align_cases), "process_pool_cases": len(proc_cases),
+        "bundle_pattern_cases": n_bun, "align_cases": len(align_cases), "process_pool_cases": len(proc_cases),
+        "process_pool_by_api": {a: sum(1 for c in proc_cases if c["api"] == a and not c.get("passthrough"))
+                                for a in ("imap", "map", "icollect")},
+        "process_pool_passthrough_imap": sum(1 for c in proc_cases if c.get("passthrough")),
+        "process_pool_executor_seen": sum(1 for o in pobs if o and "ProcessPoolExecutor" in (o.get("pools") or [])),
+        "bundled_cases": sum(1 for c in allc if is_bundled(c)),
+        "bundled_with_none_content": sum(1 for c in allc if is_bundled(c) and c["sets"]["p"].get("rnone")),
+        "bundled_with_forced_member_order": sum(1 for c in allc if c.get("inner_order")),
+        "single_files_with_none_content": sum(1 for c in allc if not is_bundled(c) and c["sets"]["p"].get("rnone")),
         "by_api": {a: sum(1 for c in allc if c["api"] == a) for a in ("imap", "map", "icollect", "collect")},
         "by_selection": {s: sum(1 for c in allc if c["sets"]["p"]["select"] == s) for s in ("all", "period", "files", "bundles")},
         "with_exception": sum(1 for c in allc if first_error(c) is not None),
@@ -578,6 +755,11 @@ def run(ctx):
         "0 < max_workers (hypothesis of every pool theorem; the harness only uses max_workers >= 1)",
         "the executor behaves like the transition system of the model (tasks complete in any order, results are taken "
         "in submission order): exercised by forced completion orders, not verified",
+        "a bundle whose members are all readable but leave no content (empty bundle, every content None) makes the nested "
+        "collect() raise ValueError; the model has this outcome (e_unzip), the property does not fix it and no such case is "
+        "generated",
+        "icollect()/collect() pin worker_type='thread' in the code: on process pools the pass-through function is exercised "
+        "through imap(worker_type='process')",
         "collect() on a selection whose contents are all None raises ValueError in the code as it is; the property does "
         "not fix that outcome and such cases are not judged",
     ]
